@@ -335,6 +335,7 @@ type CheckResult struct {
 	OutDir       string        `json:"out_dir"`
 	Bounded      []interface{} `json:"bounded,omitempty"`
 	UnreachableReturns []string `json:"unreachable_returns,omitempty"`
+	AnchorLost   []*OblReport `json:"anchor_lost,omitempty"`
 	obls         []*Obligation
 }
 
@@ -356,7 +357,10 @@ func (g *Gen) check(prop, tier, outDir string, timeoutMS, seed, par int, verbose
 		c := g.spec.Contracts[k]
 		f := g.funcsByKey[k]
 		if f == nil || f.Blocks == nil {
-			res.ToolErrors = append(res.ToolErrors, fmt.Sprintf("contract anchor lost: function %s not found in package", k))
+			// the function under contract is gone: its obligations can no longer be generated, so the
+			// property is no longer established on this tree
+			res.AnchorLost = append(res.AnchorLost, &OblReport{Name: k + "#anchor#function-missing", Kind: "anchor", Expect: "unsat", Verdict: "not-generated",
+				Clause: "function " + k + " carries contract obligations for this property but no longer exists in the package"})
 			continue
 		}
 		fv := g.newFuncVC(f, c)
@@ -370,7 +374,8 @@ func (g *Gen) check(prop, tier, outDir string, timeoutMS, seed, par int, verbose
 				}
 			}
 			if !found {
-				res.ToolErrors = append(res.ToolErrors, fmt.Sprintf("contract anchor lost: %s has no loop %d", k, ord))
+				res.AnchorLost = append(res.AnchorLost, &OblReport{Name: fmt.Sprintf("%s#anchor#loop%d-missing", k, ord), Kind: "anchor", Expect: "unsat", Verdict: "not-generated",
+					Clause: fmt.Sprintf("the contract of %s has invariants for loop %d, which no longer exists: the inductive argument cannot be replayed", k, ord)})
 			}
 		}
 		fr := &FuncReport{Func: k, Notes: fv.notes, Unsupported: fv.unsupported}
@@ -481,6 +486,11 @@ func (g *Gen) check(prop, tier, outDir string, timeoutMS, seed, par int, verbose
 				res.UnreachableReturns = append(res.UnreachableReturns, d.Name)
 			}
 		}
+	}
+	for _, a := range res.AnchorLost {
+		res.Obligations++
+		res.Failed = append(res.Failed, a)
+		res.All = append(res.All, a)
 	}
 	res.Assumed = sortedKeys(assumed)
 	res.AxiomsUsed = g.axiomNames
